@@ -1,9 +1,9 @@
 (* C14, string clause for EVERY byte string: jp.AppendString with its utf8.DecodeRune branch
-   (class '8' of the GENERATED jp_jMap: U+2028 / U+2029 / invalid bytes are escaped, other runes
-   copied) followed by the parser's readStr / readEscStr is the identity up to the replacement
-   of invalid UTF-8 by U+FFFD (sanitize). *)
+   (class '8' of the GENERATED jp_jMap: U+2028 / U+2029 / U+FFFD are written as \u escapes, a byte
+   that is not UTF-8 as a \x escape, other runes copied) followed by the parser's readStr /
+   readEscStr is the identity. *)
 From Coq Require Import Init.Byte NArith ZArith List Bool Lia.
-Require Import Ojg.Base.Bytes Ojg.Base.Utf8 Ojg.Gen.StrMaps Ojg.Json.Sweep Ojg.Json.Writer Ojg.Json.WStr Ojg.Jp.Str.
+Require Import Ojg.Base.Bytes Ojg.Base.Utf8 Ojg.Gen.StrMaps Ojg.Json.Sweep Ojg.Json.Fmt Ojg.Json.Writer Ojg.Json.WStr Ojg.Jp.Str.
 Import ListNotations.
 Open Scope Z_scope.
 
@@ -20,7 +20,9 @@ Fixpoint enc_body_u (fuel : nat) (s : bytes) : bytes :=
         let '(rn, w) := decode_rune s in
         let w := match w with O => 1%nat | _ => w end in
         (if rn =? 8232 then j2028 else if rn =? 8233 then j2029
-         else if rn =? rune_error then jfffd else firstn w s) ++ enc_body_u f (skipn w s)
+         else if rn =? rune_error then
+           (if Nat.eqb w 1 then [x5c; x78; hex_digit (b2z b / 16); hex_digit (b2z b mod 16)] else jfffd)
+         else firstn w s) ++ enc_body_u f (skipn w s)
       else enc_byte b ++ enc_body_u f r
   end.
 
@@ -67,6 +69,56 @@ Proof.
     rewrite read_high by assumption. rewrite IH by assumption. rewrite push_push. reflexivity.
 Qed.
 
+(* the only three bytes that decode to U+FFFD are its encoding *)
+Lemma decode_fffd b0 t : decode_rune (b0 :: t) = (rune_error, 3%nat) -> firstn 3 (b0 :: t) = [xef; xbf; xbd].
+Proof.
+  unfold decode_rune.
+  destruct (b2z b0 <? 128); [intro H; inversion H|].
+  destruct (b2z b0 <? 194); [intro H; inversion H|].
+  destruct (b2z b0 <? 224) eqn:E3.
+  { destruct t as [|b1 t]; [intro H; inversion H|]. destruct (is_cont b1); intro H; inversion H. }
+  apply Z.ltb_ge in E3. destruct (b2z b0 <? 240) eqn:E4.
+  - apply Z.ltb_lt in E4. destruct t as [|b1 [|b2 t]]; try (intro H; inversion H; fail).
+    set (lo := if b2z b0 =? 224 then 160 else 128). set (hi := if b2z b0 =? 237 then 159 else 191).
+    unfold is_cont.
+    destruct ((lo <=? b2z b1) && (b2z b1 <=? hi) && ((128 <=? b2z b2) && (b2z b2 <=? 191))) eqn:C; [|intro H; inversion H].
+    apply andb_true_iff in C as [C C2]. apply andb_true_iff in C as [Cl Ch]. apply andb_true_iff in C2 as [C2a C2b].
+    apply Z.leb_le in Cl, Ch, C2a, C2b.
+    assert (Hlo : 128 <= lo) by (unfold lo; destruct (b2z b0 =? 224); lia).
+    assert (Hhi : hi <= 191) by (unfold hi; destruct (b2z b0 =? 237); lia).
+    intro H. inversion H as [Hv]. unfold rune_error in Hv.
+    assert (b2z b0 = 239 /\ b2z b1 = 191 /\ b2z b2 = 189) as (A0 & A1 & A2) by lia.
+    assert (Hb : forall x y : byte, b2z x = b2z y -> x = y).
+    { intros x y Hxy. rewrite <- (z2b_b2z x), <- (z2b_b2z y), Hxy. reflexivity. }
+    simpl. f_equal; [apply Hb; rewrite A0; reflexivity|]. f_equal; [apply Hb; rewrite A1; reflexivity|].
+    f_equal. apply Hb. rewrite A2. reflexivity.
+  - destruct (b2z b0 <? 245); [|intro H; inversion H].
+    destruct t as [|b1 [|b2 [|b3 t]]]; try (intro H; inversion H; fail).
+    match goal with |- (if ?c then _ else _) = _ -> _ => destruct c end; intro H; inversion H.
+Qed.
+
+(* \xHH written for a byte reads back as that byte *)
+Definition xesc_ok (b : byte) : bool :=
+  match hexv (hex_digit (b2z b / 16)), hexv (hex_digit (b2z b mod 16)) with
+  | Some a, Some c => beqb (z2b (a * 16 + c)) b
+  | _, _ => false
+  end.
+Lemma xesc_sweep : forallb xesc_ok all_bytes = true.
+Proof. vm_compute. reflexivity. Qed.
+
+Lemma read_xesc term b k : (term = x22 \/ term = x27) ->
+  read_str term ([x5c; x78; hex_digit (b2z b / 16); hex_digit (b2z b mod 16)] ++ k) = push [b] (read_str term k).
+Proof.
+  intro Ht. pose proof xesc_sweep as S. rewrite forallb_forall in S. specialize (S b (all_bytes_complete b)).
+  unfold xesc_ok in S. cbn [List.app read_str].
+  assert (E1 : beqb x5c term = false) by (destruct Ht as [-> | ->]; reflexivity).
+  rewrite E1. change (beqb x5c x5c) with true. cbn iota.
+  change (beqb x78 x75 || beqb x78 x55) with false. cbn iota. change (beqb x78 x78) with true. cbn iota.
+  destruct (hexv (hex_digit (b2z b / 16))) as [a|]; [|discriminate S].
+  destruct (hexv (hex_digit (b2z b mod 16))) as [c|]; [|discriminate S].
+  apply beqb_eq in S. rewrite S. reflexivity.
+Qed.
+
 Lemma read_fixed term h1 h2 h3 h4 a b c d k :
   hexv h1 = Some a -> hexv h2 = Some b -> hexv h3 = Some c -> hexv h4 = Some d ->
   (term = x22 \/ term = x27) ->
@@ -80,16 +132,15 @@ Qed.
 
 Theorem string_roundtrip_u fuel : forall s term k, (length s <= fuel)%nat ->
   (term = x22 \/ term = x27) ->
-  read_str term (enc_body_u fuel s ++ k) = push (sanitize_utf8 fuel s) (read_str term k).
+  read_str term (enc_body_u fuel s ++ k) = push s (read_str term k).
 Proof.
   induction fuel as [|f IH]; intros s term k Hl Ht.
   - destruct s; [|simpl in Hl; lia]. simpl. destruct (read_str term k) as [[x y]|]; reflexivity.
   - destruct s as [|b r]; [simpl; destruct (read_str term k) as [[x y]|]; reflexivity|].
     simpl in Hl. assert (Hr : (length r <= f)%nat) by lia.
-    cbn [enc_body_u sanitize_utf8]. rewrite jclass_of.
+    cbn [enc_body_u]. rewrite jclass_of.
     destruct (128 <=? b2z b) eqn:E.
     + apply Z.leb_le in E.
-      destruct (b2z b <? 128) eqn:E128; [apply Z.ltb_lt in E128; lia|].
       pose proof (decode_high b r E) as HD.
       destruct (decode_rune (b :: r)) as [rn w] eqn:ED.
       set (w' := match w with O => 1%nat | _ => w end).
@@ -98,31 +149,42 @@ Proof.
       destruct Hw as [Hw1 Hw2].
       assert (Hsk : (length (skipn w' (b :: r)) <= f)%nat).
       { rewrite skipn_length. cbn [length]. lia. }
+      assert (Hsplit : forall n, firstn n (b :: r) ++ skipn n (b :: r) = b :: r) by (intro n; apply firstn_skipn).
       rewrite <- app_assoc.
       destruct HD as [(Hrn & Hw & Hl')|(Hrn & Hw & Hl' & Hhigh & H28 & H29)].
       * subst rn. change (rune_error =? 8232) with false. change (rune_error =? 8233) with false. rewrite Z.eqb_refl.
-        rewrite (read_fixed term x66 x66 x66 x64 15 15 15 13) by (reflexivity || exact Ht).
-        rewrite (IH _ term k Hsk Ht), push_push. reflexivity.
+        destruct Hw as [Hw|Hw]; subst w.
+        { change w' with 1%nat in *. change (Nat.eqb 1 1) with true. cbn iota.
+          rewrite (read_xesc term b _ Ht). rewrite (IH _ term k Hsk Ht), push_push. reflexivity. }
+        { change w' with 3%nat in *. change (Nat.eqb 3 1) with false. cbn iota.
+          rewrite (read_fixed term x66 x66 x66 x64 15 15 15 13) by (reflexivity || exact Ht).
+          rewrite (IH _ term k Hsk Ht), push_push.
+          change (encode_rune (((15 * 16 + 15) * 16 + 15) * 16 + 13)) with [xef; xbf; xbd].
+          rewrite <- (decode_fffd b r ED). rewrite Hsplit. reflexivity. }
       * assert (Ew : w' = w) by (apply Hw2; lia). rewrite Ew in *.
         destruct (rn =? rune_error) eqn:Er; [apply Z.eqb_eq in Er; contradiction|].
         destruct (rn =? 8232) eqn:E28.
-        { apply Z.eqb_eq in E28. rewrite (H28 E28).
+        { apply Z.eqb_eq in E28.
           rewrite (read_fixed term x32 x30 x32 x38 2 0 2 8) by (reflexivity || exact Ht).
-          rewrite (IH _ term k Hsk Ht), push_push. reflexivity. }
+          rewrite (IH _ term k Hsk Ht), push_push.
+          change (encode_rune (((2 * 16 + 0) * 16 + 2) * 16 + 8)) with [xe2; x80; xa8].
+          rewrite <- (H28 E28). rewrite Hsplit. reflexivity. }
         destruct (rn =? 8233) eqn:E29.
-        { apply Z.eqb_eq in E29. rewrite (H29 E29).
+        { apply Z.eqb_eq in E29.
           rewrite (read_fixed term x32 x30 x32 x39 2 0 2 9) by (reflexivity || exact Ht).
-          rewrite (IH _ term k Hsk Ht), push_push. reflexivity. }
-        rewrite (read_high_list term _ _ Ht Hhigh). rewrite (IH _ term k Hsk Ht), push_push. reflexivity.
-    + apply Z.leb_gt in E. assert (E128 : (b2z b <? 128) = true) by (apply Z.ltb_lt; lia). rewrite E128.
+          rewrite (IH _ term k Hsk Ht), push_push.
+          change (encode_rune (((2 * 16 + 0) * 16 + 2) * 16 + 9)) with [xe2; x80; xa9].
+          rewrite <- (H29 E29). rewrite Hsplit. reflexivity. }
+        rewrite (read_high_list term _ _ Ht Hhigh). rewrite (IH _ term k Hsk Ht), push_push. rewrite Hsplit. reflexivity.
+    + apply Z.leb_gt in E.
       rewrite <- app_assoc. rewrite read_enc_byte by (assumption || exact E).
       rewrite (IH r term k Hr Ht), push_push. reflexivity.
 Qed.
 
 Theorem string_roundtrip_all s term k :
   (term = x22 \/ term = x27) ->
-  read_str term (enc_body_u (length s) s ++ term :: k) = Some (sanitize s, k).
+  read_str term (enc_body_u (length s) s ++ term :: k) = Some (s, k).
 Proof.
   intro Ht. rewrite (string_roundtrip_u (length s) s term (term :: k) (le_n _) Ht).
-  cbn [read_str]. assert (Eb : beqb term term = true) by (apply beqb_eq; reflexivity). rewrite Eb. unfold push, sanitize. rewrite app_nil_r. reflexivity.
+  cbn [read_str]. assert (Eb : beqb term term = true) by (apply beqb_eq; reflexivity). rewrite Eb. unfold push. rewrite app_nil_r. reflexivity.
 Qed.
